@@ -289,12 +289,14 @@ namespace pika::detail {
             // Callback is currently executing on another thread,
             // block until it finishes executing.
             pika::util::yield_while(
-                [&]() {
 #if defined(PIKA_VERIF)
+                [&]() {
                     PIKA_VERIF_POINT(1415, this);
-#endif
                     return !cb->callback_finished_executing_.load(std::memory_order_relaxed);
                 },
+#else
+                [&]() { return !cb->callback_finished_executing_.load(std::memory_order_relaxed); },
+#endif
                 "stop_state::remove_callback");
         }
     }
